@@ -680,6 +680,217 @@ def history_corr_case(env: Env, drv, hist):
     return bad
 
 
+# --------------------------------------------------------------------------- scoped histories (which block is in force)
+# A forest of blocks, each realised in one of several forms: a `with` statement, a freshly decorated
+# function, ONE decorated function per settings that executes any body (so a nested block of the same
+# settings is that function calling itself), two functions sharing one decorator object calling each
+# other, a generator suspended inside a `with` while the caller runs the body. Bodies may raise (caught
+# just outside their block). At every probe a few operator applications are made.
+SCOPE_FORMS = ["with", "decorator", "recursive", "mutual", "generator"]
+PROBE_EXPRS = [("add", ["var", 3], ["var", 9]),      # int64 Var + float32 Var: mixed element types
+               ("add", ["var", 2], ["float", 2.5]),  # integer Var + Python float
+               ("truediv", ["var", 2], ["var", 2]),  # same element type
+               ("neg", ["var", 2], None)]
+
+
+class _ScopeBoom(Exception):
+    pass
+
+
+def gen_scoped(rng, size):
+    budget = [size]
+
+    def nodes(depth, parent_s):
+        out = ["p"] if rng.random() < 0.5 else []
+        while budget[0] > 0 and rng.random() < 0.7:
+            budget[0] -= 1
+            if parent_s is not None and rng.random() < 0.5:
+                s_, form = parent_s, rng.choice(["recursive", "recursive", "mutual", "decorator"])
+            else:
+                s_, form = [rng.random() < 0.5, rng.random() < 0.6], rng.choice(SCOPE_FORMS)
+            body = nodes(depth + 1, s_) if depth < 4 else ["p"]
+            out.append({"s": s_, "form": form, "raises": rng.random() < 0.15, "body": body})
+            if rng.random() < 0.6:
+                out.append("p")
+        return out
+
+    prog = nodes(0, None)
+    prog.append("p")  # always look once more after everything, outside all blocks
+    return prog
+
+
+FIXED_SCOPED = [
+    # a decorated function that calls itself (depth 3), then outside
+    [{"s": [True, True], "form": "recursive", "raises": False, "body": ["p", {"s": [True, True], "form": "recursive", "raises": False, "body": [
+        "p", {"s": [True, True], "form": "recursive", "raises": False, "body": ["p"]}, "p"]}, "p"]}, "p"],
+    # the same inside an enclosing block with promotion off
+    [{"s": [False, True], "form": "with", "raises": False, "body": ["p", {"s": [True, True], "form": "recursive", "raises": False, "body": [
+        {"s": [True, True], "form": "recursive", "raises": False, "body": ["p"]}]}, "p"]}, "p"],
+    # two functions sharing one decorator object, one calling the other
+    [{"s": [True, False], "form": "mutual", "raises": False, "body": [{"s": [True, False], "form": "mutual", "raises": False, "body": ["p"]}, "p"]}, "p"],
+    # a generator suspended inside a block while the caller probes; an inner body that raises
+    [{"s": [True, True], "form": "generator", "raises": False, "body": ["p", {"s": [False, False], "form": "decorator", "raises": True, "body": ["p"]}, "p"]}, "p"],
+]
+
+
+def scoped_tree_json(prog):
+    return ["p" if n == "p" else ["b", n["s"], scoped_tree_json(n["body"])] for n in prog]
+
+
+def enclosing_settings(prog, cur=None):
+    """The statement's own reading: the settings of the innermost enclosing block, per probe."""
+    out = []
+    for n in prog:
+        if n == "p":
+            out.append(cur)
+        else:
+            out.extend(enclosing_settings(n["body"], n["s"]))
+    return out
+
+
+def run_scoped(env: Env, prog):
+    """Execute the forest on the real managers. -> per probe: list of outcome dicts (one per PROBE_EXPRS)."""
+    oo = env.fut.operator_overloading
+    probes = []
+    cache = {}
+
+    def probe():
+        res = []
+        for opname, oa, ob in PROBE_EXPRS:
+            a = env.realise(oa)
+            b = env.realise(ob) if ob is not None else None
+            try:
+                with warnings.catch_warnings():
+                    warnings.simplefilter("ignore")
+                    r = PYOP[opname](a) if opname in UNARY else PYOP[opname](a, b)
+                if not isinstance(r, env.Var):
+                    res.append({"err": f"returned:{type(r).__name__}"})
+                    continue
+                res.append({"tree": env.tree(r, [a, b]), "dtype": env.code(r.type.dtype)})
+            except Exception as e:  # noqa: BLE001
+                res.append({"err": env.err_name(e)})
+        probes.append(res)
+
+    def run_nodes(nodes):
+        for n in nodes:
+            if n == "p":
+                probe()
+            else:
+                try:
+                    run_block(n)
+                except _ScopeBoom:
+                    pass
+
+    def body_of(n):
+        def body():
+            run_nodes(n["body"])
+            if n["raises"]:
+                raise _ScopeBoom()
+        return body
+
+    def executor(key, s_):
+        """one decorated function per (form, settings) that runs whatever body it is given"""
+        if key not in cache:
+            if key[0] == "recursive":
+                @oo(env.op, type_promotion=s_[0], constant_promotion=s_[1])
+                def f(body):
+                    body()
+                cache[key] = [f]
+            else:  # mutual: one decorator object, two functions
+                deco = oo(env.op, type_promotion=s_[0], constant_promotion=s_[1])
+
+                @deco
+                def g1(body):
+                    body()
+
+                @deco
+                def g2(body):
+                    body()
+                cache[key] = [g1, g2]
+        return cache[key]
+
+    depth = [0]
+
+    def run_block(n):
+        s_, form, body = n["s"], n["form"], body_of(n)
+        depth[0] += 1
+        try:
+            if form == "with":
+                with oo(env.op, type_promotion=s_[0], constant_promotion=s_[1]):
+                    body()
+            elif form == "decorator":
+                oo(env.op, type_promotion=s_[0], constant_promotion=s_[1])(body)()
+            elif form in ("recursive", "mutual"):
+                fs = executor((form, tuple(s_)), s_)
+                fs[depth[0] % len(fs)](body)
+            else:  # generator suspended inside the block while the caller runs the body
+                def gen():
+                    with oo(env.op, type_promotion=s_[0], constant_promotion=s_[1]):
+                        yield 1
+                g = gen()
+                next(g)
+                try:
+                    body()
+                except _ScopeBoom:
+                    try:
+                        g.throw(_ScopeBoom())
+                    except (_ScopeBoom, StopIteration):
+                        pass
+                    raise
+                try:
+                    next(g)
+                except StopIteration:
+                    pass
+        finally:
+            depth[0] -= 1
+
+    run_nodes(prog)
+    return probes
+
+
+def scoped_oracle(env: Env, prog, probes):
+    """Model-free: what the statement says about each probe given its enclosing block. -> [(key, what)]"""
+    bad = []
+    for i, (st, res) in enumerate(zip(enclosing_settings(prog), probes)):
+        where = "outside every block" if st is None else f"inside a block with type_promotion={st[0]}, constant_promotion={st[1]}"
+        for (opname, oa, ob), r in zip(PROBE_EXPRS, res):
+            expr = describe(env, opname, oa, ob)
+            if st is None:
+                if r.get("err") != "TypeError":
+                    bad.append((f"scoped:outside-block:{opname}:not-TypeError", f"probe {i} ({where}, after earlier blocks have exited): {expr} gives {r}"))
+            elif not st[0]:
+                if opname == "add" and oa[0] == "var" and ob[0] == "var" and r.get("err") != "TypeError":
+                    bad.append(("scoped:no-promotion:mixed-dtypes:not-TypeError", f"probe {i} ({where}): {expr} gives {r}"))
+                if ob is not None and ob[0] == "float" and r.get("err") != "TypeError":
+                    bad.append(("scoped:no-promotion:float-constant:not-TypeError", f"probe {i} ({where}): {expr} gives {r}"))
+                if "tree" in r and "Cast[" in r["tree"]:
+                    bad.append(("scoped:no-promotion:operand-converted", f"probe {i} ({where}): {expr} gives {r}"))
+            else:
+                if opname in ("add", "truediv") and ob[0] == "var":
+                    want = env.code(numpy_expect(env.np, opname, np_operand_for(env, oa), np_operand_for(env, ob))[1].dtype)
+                    if r.get("dtype") != want:
+                        bad.append((f"scoped:promotion:{opname}:result-dtype", f"probe {i} ({where}): {expr} gives {r}, numpy's element type is {env.dtypes[want]}"))
+                if ob is not None and ob[0] == "float":
+                    if st[1] and r.get("dtype") != env.code("float64"):
+                        bad.append(("scoped:promotion:constant:result-dtype", f"probe {i} ({where}): {expr} gives {r}"))
+                    if not st[1] and r.get("err") != "TypeError":
+                        bad.append(("scoped:no-constant-promotion:not-TypeError", f"probe {i} ({where}): {expr} gives {r}"))
+    return bad
+
+
+def np_operand_for(env, o):
+    return env.np.ones((2,), dtype=env.dtypes[o[1]])
+
+
+def scoped_case(env: Env, prog):
+    saved = getattr(env.Var, "_operator_dispatcher", None)
+    try:
+        probes = run_scoped(env, prog)
+    finally:
+        env.restore_dispatcher(saved)  # a leaking manager must not poison the rest of the run
+    return probes, scoped_oracle(env, prog, probes)
+
+
 def describe(env, opname, oa, ob):
     def d(o):
         if o is None:
@@ -748,6 +959,7 @@ CHECKS = {
     "strict": lambda env, c: strictness_case(env, c["op"], c["a"], c["b"]),
     "outside": lambda env, c: outside_case(env, c["op"], c["a"], c.get("b")),
     "history": lambda env, c: history_value_case(env, c["hist"])[0],
+    "scoped": lambda env, c: scoped_case(env, c["prog"])[1],
 }
 
 
@@ -996,6 +1208,55 @@ def run(ck: core.Check):
     ck.cov["history_cases"] = {"correspondence": len(hists_c) + len(hists_v), "value_oracle": len(hists_v), **hstats}
     ck.cov["history_mismatches"] = hist_mism
 
+
+    # ------------------------------------------------------------------ scoped histories (which settings are in force)
+    progs = list(FIXED_SCOPED) + [gen_scoped(rng, rng.randrange(1, 9)) for _ in range(ck.pick(250, 2500))]
+    sc_stats = {"programs": len(progs), "probes": 0, "outside_probes": 0, "recursive_or_shared_blocks": 0, "mismatches": 0}
+    sc_model = None
+    if model is not None:
+        try:
+            sc_model = ck.driver().ask_many("C17", [{"scoped": scoped_tree_json(pg)} for pg in progs])
+        except Exception as e:  # noqa: BLE001
+            ck.broken("correspondence", "C17 scoped driver", str(e))
+    probe_reqs, probe_real = [], []
+    for k, pg in enumerate(progs):
+        try:
+            probes, bad = scoped_case(env, pg)
+        except Exception as e:  # noqa: BLE001
+            ck.broken("correspondence", "C17 scoped history not observable", f"{type(e).__name__}: {e}")
+            continue
+        ck.count(("scoped", repr(pg)))
+        encl = enclosing_settings(pg)
+        sc_stats["probes"] += len(probes)
+        sc_stats["outside_probes"] += sum(1 for x in encl if x is None)
+        sc_stats["recursive_or_shared_blocks"] += repr(pg).count("'recursive'") + repr(pg).count("'mutual'")
+        for key, what in bad:
+            ck.failure(key, what, {"check": "scoped", "prog": pg})
+        if sc_model is not None:
+            m_set = sc_model[k].get("probes")
+            if m_set != encl:
+                ck.broken("correspondence", "C17 scoped model vs the enclosing-block reading", f"{pg}: model {m_set} expected {encl}")
+                continue
+            for st, res in zip(m_set, probes):
+                for (opname, oa, ob), r in zip(PROBE_EXPRS, res):
+                    probe_reqs.append({"settings": st, "op": opname, "a": oa if oa[0] != "float" else ["float"],
+                                       "b": (ob if ob[0] != "float" else ["float"]) if ob is not None else ["other"]})
+                    probe_real.append((pg, r))
+    if probe_reqs:
+        try:
+            outs = ck.driver().ask_many("C17", probe_reqs)
+            for rq, o, (pg, r) in zip(probe_reqs, outs, probe_real):
+                if o != r:
+                    sc_stats["mismatches"] += 1
+                    if sc_stats["mismatches"] <= 3:
+                        ck.broken("correspondence", "C17 scoped history model-vs-implementation",
+                                  f"{pg}: settings in force per model {rq['settings']}, {rq['op']}: model {o} real {r}")
+        except Exception as e:  # noqa: BLE001
+            ck.broken("correspondence", "C17 scoped driver", str(e))
+    ck.cov["scoped_histories"] = sc_stats
+    if sc_stats["outside_probes"] < len(progs):
+        ck.broken("generator", "C17 scoped histories starved", str(sc_stats))
+
     # float floor division: the family of the listed finding (quotients that round up to an integer)
     probes = [(1.0, 0.1), (6.0, 0.2), (0.3, 0.1), (7.0, 0.7), (2.0, 0.4), (-1.0, 0.1), (1.0, -0.1), (9.0, 0.3), (4.5, 1.5), (-7.0, 2.0)]
     pjobs = [(dtn, x, y) for dtn in ["float32", "float64"] for x, y in probes]
@@ -1040,6 +1301,10 @@ def run(ck: core.Check):
         "5 fixed + seeded-random expression histories (2-5 applications re-using the same Vars and earlier results, needing "
         "different casts per use, inside single / successive / nested blocks with different settings): per-step tree vs the "
         "model applied compositionally, and every intermediate through onnxruntime vs numpy; "
+        "4 fixed + seeded-random scoped histories (forests of blocks as with / fresh decorator / one decorated function "
+        "calling itself / two functions sharing a decorator object / generator suspended inside a block, bodies that raise): "
+        "operator outcomes at every probe vs the stack-discipline model and vs the statement (outside => TypeError; inside => "
+        "the enclosing block's rules); "
         "non-trivial = one (settings, operator, operand kinds) combination"
     )
     ck.assumptions += [
